@@ -3,6 +3,7 @@ from checks.common import Ctx
 from sa.report import Check
 from sa.rules import backend as B
 from sa.rules import pipeline as P
+from sa.rules import traversal as T
 
 
 def main(tier):
@@ -20,6 +21,7 @@ def main(tier):
     r, s = cx.repo, cx.schema
     chk.run("R-PIPE", P.pipe, r, floor=12, control=lambda: P.control_pipe(r))
     chk.run("R-DEPTWIN", P.deptwin, r, s, cx.sites, floor=2)
+    chk.run("R-SKIPLOSS", T.skiploss, r, s, cx.sites, modules=("dependency_checker.py",), floor=4)
     chk.run("R-NAMEDKINDS", P.namedkinds, r, s, cx.sites, floor=10)
     chk.run("R-DEPORDER", B.deporder, r, floor=3)
     return chk.finish()
